@@ -501,4 +501,62 @@ theorem lse_neg_inf_perm {n : Nat} (x : Vec (Ext ℝ) (n + 1)) (hx : ∀ i, x i 
   simp only [Vec.of_apply]
   rw [Equiv.sum_comp σ (fun i => Ext.expR (x i))]
 
+/-- entrywise reciprocal: the inverse routine for 1×1 matrices -/
+noncomputable def recipInv : InvFn ℝ := fun _ A => Mat.of (fun i j => 1 / A i j)
+
+/-- **Witness** for the negative branch of `uvr_factor_signs` (d = k = 1, one 1×1 block):
+    `U = V = (2)`, `R = (−1)`: `S = U V + R = (3)` is positive definite although `R` is negative; the code
+    forms `det R = −1`, `det(I + V R⁻¹ U) = −3` and their product `3 = det S > 0`.  Taking the logarithm of
+    the factors separately is undefined here. -/
+theorem uvr_negative_factors_witness :
+    ∃ (inv : InvFn ℝ) (U : Mat ℝ (1 * 1) 1) (V : Mat ℝ 1 (1 * 1)) (R : RNoise ℝ 1 1),
+      (∀ i, InvOK inv (R.block i)) ∧ InvOK inv (uvrM inv U V R) ∧ (toM (assembleS U V R)).PosDef ∧
+      R.det = -1 ∧ Mat.detLU 1 (uvrM inv U V R) = -3 ∧
+      ∀ (b : Nat) (x : Mat ℝ (1 * 1) b) (m : Vec ℝ (1 * 1)), (uvrAlg inv x m U V R).detS = 3 := by
+  have : Subsingleton (Fin (1 * 1)) := ⟨fun a b => Fin.ext (by omega)⟩
+  let i0 : Fin (1 * 1) := ⟨0, by norm_num⟩
+  let U : Mat ℝ (1 * 1) 1 := Mat.of (fun _ _ => 2)
+  let V : Mat ℝ 1 (1 * 1) := Mat.of (fun _ _ => 2)
+  let R0 : Mat ℝ 1 1 := Mat.of (fun _ _ => -1)
+  let R : RNoise ℝ 1 1 := .shared R0
+  have hM : ∀ i j, (uvrM recipInv U V R) i j = -3 := by
+    intro i j
+    simp only [uvrM, Mat.add_apply, Mat.one_apply, Mat.mul_apply, mulInvR, Mat.eval_eq, Mat.of_apply, RNoise.invBlocks,
+      Vec.of_apply, recipInv, fsum_eq_sum, Fintype.sum_subsingleton _ i0, U, V, R, R0,
+      Subsingleton.elim i j, if_true]
+    norm_num
+  have hRdet : R.det = -1 := by
+    rw [RNoise_det_eq]
+    simp [RNoise.block, R, R0, toM]
+  have hMdet : Mat.detLU 1 (uvrM recipInv U V R) = -3 := by
+    rw [toM_detLU, Matrix.det_fin_one]; exact hM 0 0
+  have hinv1 : ∀ (A : Mat ℝ 1 1), A 0 0 ≠ 0 → InvOK recipInv A := by
+    intro A hA
+    unfold InvOK
+    ext i j
+    have hi : i = 0 := Subsingleton.elim _ _
+    have hj : j = 0 := Subsingleton.elim _ _
+    subst hi; subst hj
+    simp [Matrix.mul_apply, recipInv, toM, hA]
+  refine ⟨recipInv, U, V, R, fun i => hinv1 _ (by simp [RNoise.block, R, R0]), hinv1 _ (by rw [hM]; norm_num), ?_, hRdet, hMdet, ?_⟩
+  · refine Matrix.PosDef.of_dotProduct_mulVec_pos ?_ ?_
+    · ext i j
+      rw [Subsingleton.elim i j]
+      simp [Matrix.conjTranspose_apply]
+    · intro x hx
+      have hx0 : x i0 ≠ 0 := by
+        intro h; apply hx; funext i; rw [Subsingleton.elim i i0]; exact h
+      have hS : toM (assembleS U V R) i0 i0 = 3 := by
+        simp only [toM_apply, assembleS, Mat.add_apply, RNoise.full, RNoise.block, Mat.of_apply, U, V, R, R0]
+        rw [Mat.mul_apply, fsum_eq_sum, Fin.sum_univ_one]
+        simp only [Mat.of_apply]
+        norm_num
+      simp only [dotProduct, Matrix.mulVec, Fintype.sum_subsingleton _ i0, hS, Pi.star_apply, star_trivial]
+      have : 0 < x i0 * x i0 := mul_self_pos.mpr hx0
+      nlinarith
+  · intro b x m
+    simp only [uvrAlg, Mat.eval_eq]
+    show R.det * Mat.detLU 1 (uvrM recipInv U V R) = 3
+    rw [hRdet, hMdet]; norm_num
+
 end BFL
